@@ -178,9 +178,10 @@ class PLIST(Filetype):
     def build_tree_handling_errors(self, path: str, options: Optional[BuildOptions] = None) -> Union[str, TreeNode]:
         try:
             return self.build_tree(path=path, options=options)
-        except (ExpatError, ValueError, LookupError, AttributeError) as ee:
-            # plistlib's XML parser raises IndexError (a value outside of any container) and AttributeError (a date it
-            # cannot parse) for malformed documents; expat raises LookupError for an unknown encoding in the XML declaration
+        except (ExpatError, ValueError, LookupError, AttributeError, TypeError) as ee:
+            # plistlib's XML parser raises IndexError (a value outside of any container), AttributeError (a date it
+            # cannot parse) and TypeError (a date without a month or day) for malformed documents; expat raises
+            # LookupError for an unknown encoding in the XML declaration
             return f'Error parsing {os.path.basename(path)}: {ee})'
 
     def get_default_formatter(self) -> PLISTFormatter:
